@@ -58,7 +58,16 @@ def optimal_vertices(fba, z, limit=4):
     return out[:limit]
 
 
-def check_model(net, bounds, flip, scale, stats, rich=False):
+def check_model(net, bounds, flip, scale, stats, rich=False, origin=None):
+    out = _check_model(net, bounds, flip, scale, stats, rich, origin)
+    if origin:
+        for sg, cs, _ in out:
+            sg["origin"] = origin
+            cs["origin"] = origin
+    return out
+
+
+def _check_model(net, bounds, flip, scale, stats, rich=False, origin=None):
     import numpy as np
     import pandas as pd
     from cobra.core import Solution
@@ -76,6 +85,15 @@ def check_model(net, bounds, flip, scale, stats, rich=False):
     model = families.build_model(mets, rxns, flip=flip)
     osign = -1 if oid in flip else 1
     model.objective = {model.reactions.get_by_id(oid): osign}
+    if origin:
+        # the same model reached by another public route (mc/origins.py)
+        from .. import origins
+
+        try:
+            model = origins.derive(model, origin)
+        except origins.OriginUnavailable:
+            stats["origin_unavailable"] = stats.get("origin_unavailable", 0) + 1
+            return out
     tol = model.tolerance
     # model-side data (flipped reactions: flux and coefficients negated, mass flow identical)
     coef = {rid: {m: (-c if rid in flip else c) for m, c in stc.items()} for rid, stc, _, _ in rxns}
@@ -268,6 +286,13 @@ def run_task(payload):
         ids = families.rxn_ids(net)
         bnd = [i for i, c in zip(ids, net) if families.is_boundary(c)]
         for bounds in families.bound_assignments(net, P["d"] if len(net) <= 3 else 0, P["menu"]):
+            if payload.get("origins"):
+                from .. import origins
+
+                for origin in origins.ORIGINS:
+                    stats["models_from_origins"] = stats.get("models_from_origins", 0) + 1
+                    violations.extend(check_model(net, bounds, {bnd[0]}, {bnd[-1]}, stats, False, origin))
+                continue
             for flip, scale in (((), ()), ((bnd[0],), ()), (tuple(bnd), (bnd[-1],)), ((), (bnd[0], ids[-1]))):
                 stats["models"] = stats.get("models", 0) + 1
                 violations.extend(check_model(net, bounds, set(flip), set(scale), stats, payload.get("rich", False)))
@@ -279,7 +304,7 @@ def replay(case):
 
     net = tuple(tuple(c) for c in case["net"])
     bounds = tuple((_u(a), _u(b)) for a, b in case["bounds"])
-    out = check_model(net, bounds, set(case["flip"]), set(case["scale"]), {}, rich=True)
+    out = check_model(net, bounds, set(case["flip"]), set(case["scale"]), {}, rich=True, origin=case.get("origin"))
     return [{"sig": s, "detail": d} for s, c, d in out if json.loads(json.dumps(c)) == case]
 
 
@@ -291,6 +316,14 @@ def explore(ctx):
     off = ctx.seed % len(nets)
     nets = nets[off:] + nets[:off]
     payloads = [{"params": P, "nets": nets[i:i + 1], "rich": ctx.thorough} for i in range(len(nets))]
+    # origins: three-reaction members (one boundary reaction written backwards, one with doubled coefficients), default
+    # bounds, reached by every other public route
+    from .. import origins
+
+    no = [n for n in nets if len(n) == 3]
+    if ctx.tier == "quick":
+        no = no[::3]
+    payloads += [{"params": dict(P, d=0), "nets": no[i:i + 1], "origins": True} for i in range(len(no))]
     stats = {}
     with ctx.pool(timeout=3000) as pool:
         for i, status, r0 in pool.imap(payloads):
@@ -310,6 +343,9 @@ def explore(ctx):
                 "in Solution) x fva (None, 0.9, 1.0, precomputed frame) x model summary + every metabolite and reaction "
                 "summary; non-trivial = some boundary flux non-zero" % (P["nm"], P["nr"], len(P["menu"])),
         "exhaustive": True, "networks": len(nets), "models": stats.get("models", 0), "exactlp_selftest_lps": n_self,
+        "origins_pass": "%d three-reaction networks x %d origins (%s): %d models; route itself failed for %d" % (
+            len(no), len(origins.ORIGINS), ", ".join(origins.ORIGINS), stats.get("models_from_origins", 0),
+            stats.get("origin_unavailable", 0)),
     })
     ctx.sample({"net": [list(c) for c in nets[0]]})
     ctx.assumptions += ["objective value of the model summary is read from its text form (no public accessor)"]
